@@ -157,6 +157,33 @@ fn @name@() {
 """, name=nm, f=f, g=g, unwind=unwind), functions=["Segment::apply_seg_mods", "Segment::set_feat", "Place::set_*"], symbolic="all bundles, both polarities",
             shape="[±%s, ±%s] as output" % (fname(f), fname(g)), unwind=unwind, stubs=STUBS, jobs=8))
 
+    # three slots in one matrix (two of one sub-node + one of another node): the order-independent oracle again
+    triples = [(18, 20, 15), (14, 15, 16), (24, 25, 19), (19, 21, 24)] if tier == "thorough" else [[(18, 20, 15), (14, 15, 16)][seed % 2]]
+    for (f, g, k) in triples:
+        nm = "c04_apply3_%02d_%02d_%02d" % (f, g, k)
+        hs.append(G.H(nm, "apply-three-features", "subrule", G.T(HDR + """
+fn @name@() {
+    let s = any_seg();
+    let bf = any_bin(); let bg = any_bin(); let bk = any_bin();
+    let alphas: RefCell<HashMap<char, Alpha>> = RefCell::new(HashMap::new());
+    let mut m = mods_new();
+    m.feats[@f@] = Some(ModKind::Binary(bf));
+    m.feats[@g@] = Some(ModKind::Binary(bg));
+    m.feats[@k@] = Some(ModKind::Binary(bk));
+    let mut t = s;
+    let r = t.apply_seg_mods(&alphas, m.nodes, m.feats, P, false);
+    assert!(r.is_ok(), "role=unexpected-error");
+    let named = [(@f@usize, bf == BinMod::Positive), (@g@usize, bg == BinMod::Positive), (@k@usize, bk == BinMod::Positive)];
+    let e = ref_apply_set(&s, &named);
+    assert!(same_features(&t, &e), "role=apply-three-features");
+    if inv(&s) { assert!(t == e, "role=apply-three-features-bits"); }
+    kani::cover!(bf == BinMod::Negative && bg == BinMod::Positive && ref_feat(&s, @f@).is_none());
+    kani::cover!(bk == BinMod::Positive && ref_feat(&s, @k@).is_none());
+    std::mem::forget(alphas);
+}
+""", name=nm, f=f, g=g, k=k, unwind=unwind), functions=["Segment::apply_seg_mods", "Segment::set_feat", "Place::set_*"], symbolic="all bundles, three polarities",
+            shape="[±%s, ±%s, ±%s] as output" % (fname(f), fname(g), fname(k)), unwind=unwind, stubs=STUBS))
+
     # two-slot *match* through the real SubRule::match_modifiers on a directly built one-segment word
     mm_pairs = [[(15, 14), (19, 20)][seed % 2]] if tier == "quick" else [(15, 14), (19, 20), (16, 17), (24, 25), (0, 11), (6, 15), (18, 23)]
     for (f, g) in mm_pairs:
@@ -322,11 +349,11 @@ fn c04_twin_reach() {
         "harnesses": hs, "cap_s": 1200, "single_jobs": 8,
         "bounds": ["unwind %d = FType::count()+2 read from src/lexer.rs (loops over the 26 feature and 8 node slots); Kani's unwinding assertions are on" % unwind,
                    "alpha shapes: hashbrown/SipHash loops bounded to 3 via --unwindset, loop ids read from `cbmc --show-loops` on this build's goto binary; unwinding assertions on",
-                   "matrices with one slot (all 26 features, 8 nodes) and two slots (%d pairs this run); matrices with 3+ named features are not enumerated" % len(pairs),
+                   "matrices with one slot (all 26 features, 8 nodes) and two slots (%d pairs this run); three-slot matrices: %d this run; four and more are not enumerated" % (len(pairs), len(triples)),
                    "alpha shapes this run: %d feature shapes, %d node shapes" % (len(alpha_shapes), len(node_shapes))],
         "outside": ["the rule-level wrappers ([] > [±F] through lexer, parser, SubRule::apply scan loop and renderer): whole-rule application does not finish under CBMC",
                     "the input *set* 'base + one diacritic' as such: the kernels are decided for every one of the 2^40 bundles, which includes them",
-                    "matrices naming three or more features (slots are handled by independent loop iterations; argued, not decided)",
+                    "matrices naming four or more features (slots are handled by independent loop iterations; argued from the code; one- to three-slot matrices are decided)",
                     "a later *match* against an already bound alpha (`[αF]` in a context after the input bound it): every harness that calls match_seg_kind/match_node twice keeps a second HashMap::insert (with resize/rehash) alive and exhausted 46 GB under CBMC; the later *use in an output* is decided (alpha-capture-apply)"],
         "assumptions": ["std::hash::RandomState::new stubbed with fixed keys (keys only choose hash buckets)", "reference models ref_match_feat/ref_apply_feat/ref_apply_set/ref_apply_node in harness/common.rs, written from the property statement and the feature chart of doc/doc.md",
                         "for [±place] matching the bundle satisfies the C08 invariant"],
